@@ -273,6 +273,7 @@ func (sc *scenario) hook(name string, args ...interface{}) {
 		err := args[0] != nil
 		if !err {
 			sc.accum += int64(sc.lastLen)
+			sc.lastLen = 0 // a frame counts once, whatever the client does after it
 		} else {
 			sc.accum = 0
 			// the drainer will close and re-dial: it is not idle again before that dial has returned
@@ -481,6 +482,9 @@ func mediumSize(r *rand.Rand) int {
 
 // finish ends the scenario, collects the collector's record and writes the history.
 func (sc *scenario) finish(c *core.Ctx, t *core.Trace, emit *sync.Mutex) {
+	// every connection the client established must have been picked up by the collector's accept loop before the
+	// listener is closed (a connection still in the accept queue is destroyed with the listener and leaves no record)
+	sc.quiesce()
 	if sc.mode == "worker" {
 		sc.cl.Destroy() // cancels the worker; it may sit in its poll for a few seconds more, touching nothing
 		sc.mu.Lock()
@@ -527,16 +531,20 @@ func (sc *scenario) finish(c *core.Ctx, t *core.Trace, emit *sync.Mutex) {
 
 	emit.Lock()
 	defer emit.Unlock()
+	if timedOut {
+		sc.notes = append(sc.notes, "the collector did not finish in time")
+	}
+	if len(sc.notes) > 0 {
+		// A wait FOR a state ran into its bound (machine load, or a client that hangs): what was recorded is not a
+		// complete history and is not judged.  The history is void (a Reset with nothing after it); the runner
+		// counts void histories and refuses to give a verdict (exit 2) if there are too many.
+		void(c, t, sc.gen, sc.cas, sc.notes)
+		return
+	}
 	t.Reset(sc.gen, sc.cas, core.Ev{"mode": sc.mode, "queue": sc.mode != "direct", "qcap": sc.qcap, "deflic": sc.deflic,
 		"lics": lics, "proph": conns, "nondet": sc.nondet})
 	for _, e := range sc.evs {
 		t.Emit(e.ev)
-	}
-	if timedOut {
-		t.Emit(core.Ev{"ev": "CollectorTimeout"})
-	}
-	for _, n := range sc.notes {
-		t.Emit(core.Ev{"ev": "HarnessProblem", "msg": n})
 	}
 	t.Emit(core.Ev{"ev": "End", "t": []int{tick(), 1 << 30}, "nconn": int(atomic.LoadInt32(&sc.connOK))})
 }
@@ -591,6 +599,19 @@ func (sc *scenario) linearize() {
 		e.key = k
 		prev = k
 	}
+}
+
+var voidMu sync.Mutex
+var voids []string
+
+// void writes an empty history (caller holds the emit lock) and reports it in meta.extra.
+func void(c *core.Ctx, t *core.Trace, gen string, cas int, why []string) {
+	t.Reset(gen, cas, core.Ev{"mode": "void", "queue": false, "qcap": 0, "deflic": "-", "lics": core.Ev{}, "proph": []core.Ev{},
+		"nondet": true, "void": why})
+	voidMu.Lock()
+	voids = append(voids, fmt.Sprintf("%s/%d: %v", gen, cas, why))
+	c.SetExtra("c06_void_histories", append([]string(nil), voids...))
+	voidMu.Unlock()
 }
 
 func startWorker(cl *oneway.OneWayTcpClient) { oneway.StartWorkerForVerif(cl) }
